@@ -122,6 +122,8 @@ static Plan plan_C01(Rng& r, const std::string& tier) {
 		for (int e = 0; e < ep; ++e) {
 			TA A, B; gen_incl_pair(r, pool, r.chance(1, 6) ? (thorough ? 8 : 7) : r.range(2, 5), r.chance(1, 4), A, B);
 			if (r.chance(1, 10)) A = r.chance(1, 2) ? wide_pair_smaller(r, B) : repeat_pair_smaller(r, B);      // the shapes that matter for the upward algorithms
+			else if (r.chance(1, 10)) monadic_pair(r, A, B);
+			if (r.chance(1, 3)) permute_syms(r, A, B);
 			int a = g.load(A, 0), b = g.load(B, 0);
 			if (r.chance(1, 5)) g.push(cli_step(r, c, 0, 3, mdl::to_lit(A), mdl::to_lit(B)));     // the same question through the real command-line tool
 			if (r.chance(1, 4)) g.push(mk(c, "et_copy", {a}), 0);                   // operand shares storage with another handle
